@@ -100,6 +100,12 @@ void do_count(Miner* a, int64_t v) { *a << (ssize_t)v; }
 void do_count(ETL* a, int64_t v) { Cell& c = a->local(); if (c.magic != 0xC0FFEEull) fail("unconstructed", "local", "local() returned a slot whose constructor never ran"); c.v = c.v + (uint64_t)v; }
 void do_count(CETL* a, int64_t v) { Cell16& c = a->local(); c.v = c.v + (uint64_t)v; c.w = c.w + 1; }
 
+// a callback range must be a range
+void check_range(const void* b, const void* e, const char* what) {
+  if ((uintptr_t)b > (uintptr_t)e || (uintptr_t)e - (uintptr_t)b > (1u << 26))
+    fail("oob", what, "%s passed the range [%p, %p) to its callback: not a range of slots of this instance", what, b, e);
+}
+
 struct Reading { int64_t sum = 0; uint64_t num = 0; bool has = true; };
 Reading do_read(const Adder* a) { Reading r; r.sum = a->value(); return r; }
 Reading do_read(const Summer* a) { auto s = a->value(); Reading r; r.sum = s.sum; r.num = s.num; return r; }
@@ -112,7 +118,7 @@ Reading do_read(const Maxer* a) { return read_ext(a); }
 Reading do_read(const Miner* a) { return read_ext(a); }
 Reading do_read(const ETL* a) {
   Reading r;
-  a->for_each([&](const Cell* b, const Cell* e) { for (; b != e; ++b) { if (b->magic != 0xC0FFEEull) fail("unconstructed", "for_each", "for_each visited a slot whose constructor never ran"); r.sum += (int64_t)b->v; } });
+  a->for_each([&](const Cell* b, const Cell* e) { check_range(b, e, "for_each"); for (; b != e; ++b) { if (b->magic != 0xC0FFEEull) fail("unconstructed", "for_each", "for_each visited a slot whose constructor never ran"); r.sum += (int64_t)b->v; } });
   return r;
 }
 Reading do_read(const CETL* a) { Reading r; a->for_each([&](const Cell16& c) { r.sum += (int64_t)c.v; r.num += c.w; }); return r; }
@@ -170,10 +176,10 @@ void expect_enumeration(int k, const char* where, bool nonconst_alive) {
   if (skip_alive) probe("for_each_alive_skipped_known_oob");
   if (S->subject == S_ETL) {
     ETL* e = (ETL*)I.obj;
-    ((const ETL*)e)->for_each([&](const Cell* b, const Cell* en) { for (; b != en; ++b) dup += !all.insert(b).second; });
+    ((const ETL*)e)->for_each([&](const Cell* b, const Cell* en) { check_range(b, en, "for_each"); for (; b != en; ++b) dup += !all.insert(b).second; });
     if (skip_alive) {}
-    else if (nonconst_alive) e->for_each_alive([&](Cell* b, Cell* en) { for (; b != en; ++b) dup += !alive.insert(b).second; });
-    else ((const ETL*)e)->for_each_alive([&](const Cell* b, const Cell* en) { for (; b != en; ++b) dup += !alive.insert(b).second; });
+    else if (nonconst_alive) e->for_each_alive([&](Cell* b, Cell* en) { check_range(b, en, "for_each_alive"); for (; b != en; ++b) dup += !alive.insert(b).second; });
+    else ((const ETL*)e)->for_each_alive([&](const Cell* b, const Cell* en) { check_range(b, en, "for_each_alive"); for (; b != en; ++b) dup += !alive.insert(b).second; });
     for (auto& kv : S->live_tid16) if (const void* a = storage_slot(e->_storage, kv.second)) expect.insert(a);
   } else {
     CETL* e = (CETL*)I.obj;
